@@ -47,3 +47,13 @@ prop(
                  "must-reject side judged only outside the unconditional tau envelope with flooring margin 2n(n+1) (DESIGN C14 / appendix C)"],
     exhaustive_note="the small grid (epoch lengths {1,2,3,7} x block difficulties {1..200}, every legal sequence up to 4 (quick) / 5 (thorough) switches, all start/end indices of short epochs) is enumerated completely unless the evidence notes say TRUNCATED",
 )
+
+prop(
+    "C15", "exploration",
+    rule="one evaluation = one request built by the real builders (build_prove_request_content / _from_genesis / sample_blocks) or emitted by the client in a world scenario, judged clause by clause against ground truth; "
+         "a cell = (builder branch, gap class relative to last-N, last-N, difficulty magnitude class, direction)",
+    sizes=tiers(16, 3000, 60, 16, 400000, 900, min_evals=20000, min_cells=30),
+    technique="runtime monitoring: ground-truth oracle over generated requests and an always-on monitor over the client's outbound GetLastStateProof messages; independent evaluation of the FlyClient sample bound",
+    level_text="Every request built for generated start/last numbers (1-block gaps, gaps of last-N and last-N+1, 2^32/2^63/2^64-scale numbers), total difficulties up to 2^256-1, all last-N values, with and without a previous proof and stored last-N headers, and every request the client emits during generated sync histories: start < last, td(start) <= td(last), boundary inside [td(start), td(last)], difficulties strictly increasing inside (start, boundary), samples iff more than last-N blocks are missing, count >= the independently computed FlyClient bound (strict where the range is >= 2^64).",
+    level_note="the count clause is strict only where identical draws are practically impossible; distribution quality is not judged; f64 evaluation of the bound is allowed an off-by-one",
+)
